@@ -867,6 +867,33 @@ def _run_hyperlink(w, deck, a):
     rn.hyperlink.address = a["addr"]
 
 
+@op("fit_text", "text", expects=(TypeError,))
+@gen(lambda r: dict(g_sh(r), max_size=r.choice([8, 18, 40]), bold=r.random() < 0.3, italic=r.random() < 0.3))
+def _fit_text(w, deck, a):
+    """fit_text with an explicit font file (no OS font directories are read)."""
+    sl, sh = nav_shape(w, deck, a, "text")
+    if not sh.width or not sh.height or int(sh.width) < 200000 or int(sh.height) < 200000:
+        raise Skip("shape too small to fit text in")
+    font = os.path.join(os.path.dirname(os.path.dirname(os.path.abspath(__file__))), "assets", "calibriz.ttf")
+    sh.text_frame.fit_text("Calibri", a["max_size"], a["bold"], a["italic"], font_file=font)
+
+
+@op("font_fill", "dml", weight=1.5, expects=(ValueError,))
+@gen(lambda r: dict(g_sh(r), para=r.randint(0, 4), run=r.randint(0, 3), **g_fill(r)))
+def _font_fill(w, deck, a):
+    sl, sh, tf, p, rn = nav_run(w, deck, a)
+    apply_fill(rn.font.fill, a)
+
+
+@op("pic_auto_shape", "geometry")
+@gen(lambda r: dict(g_sh(r), type=r.randint(0, 200)))
+def _pic_auto_shape(w, deck, a):
+    sl, sh = nav_shape(w, deck, a, "pic")
+    if type(sh).__name__ != "Picture":
+        raise Skip("not a plain picture")
+    sh.auto_shape_type = autoshape_member(a["type"])
+
+
 # ---- DML ------------------------------------------------------------------------------------------------
 
 def g_fill(r):
